@@ -340,3 +340,77 @@ Definition run_top (builtin : bool) (w lw llw : Z) (s : bool) (env : nat -> Z) (
   end.
 
 Definition env_of_list (l : list Z) (i : nat) : Z := nth i l 0.
+
+(* ---- typedef'd integer types: the Binop if-chain in detail ---------------------------------
+   CTypedefType.overflow_check_binop instantiates Binop / LeftShift with TYPE = the typedef name
+   for every typedef whose DECLARED rank is at least that of int; the real width w and signedness s
+   are only known to the C compiler (an extern ctypedef need not declare the exact size).
+   narrow_cmp = the comparison between sizeof(TYPE) and sizeof(int) that guards the shortcut arm
+   (CmpLt is the code as it is). *)
+Inductive narrow_cmp := CmpLt | CmpLe.
+
+Definition cmp_holds (c : narrow_cmp) (w iw : Z) : bool :=
+  match c with CmpLt => w <? iw | CmpLe => w <=? iw end.
+
+(* the callee selected by the if-chain: the shortcut macro, a base helper (width, signedness), or
+   Py_FatalError *)
+Inductive choice := CNarrow | CBase (bw : Z) (bs : bool) | CFatal.
+
+Definition dispatch_choice (c : narrow_cmp) (iw lw llw w : Z) (s : bool) : choice :=
+  if cmp_holds c w iw then CNarrow
+  else if w =? iw then CBase iw s
+  else if w =? lw then CBase lw s
+  else if w =? llw then CBase llw s
+  else CFatal.
+
+(* the shortcut arm as it is: (a) op (b) after the integer promotions, converted to TYPE by the
+   return statement; the bit is not touched *)
+Definition narrow_unchecked (op : binop) (iw w : Z) (s : bool) (a b : Z) : hres :=
+  R (wrap w s (wrap iw true (exact_op op a b))) false.
+
+(* the shortcut arm repaired (proposed fix): the int helper on the promoted operands, then
+   "if ((TYPE) r != r) *overflow |= 1; return (TYPE) r;"  (used for sizeof(TYPE) < sizeof(int)) *)
+Definition narrow_checked (builtin : bool) (op : binop) (iw lw llw w : Z) (s : bool)
+    (cb ca swap : bool) (a b : Z) : hres :=
+  let p := base_helper builtin op iw true lw llw cb ca swap a b in
+  R (wrap w s (fst p)) (snd p || negb (wrap w s (fst p) =? fst p)).
+
+Definition binop_dispatch_v (fx : bool) (c : narrow_cmp) (builtin : bool) (op : binop)
+    (iw lw llw w : Z) (s : bool) (cb ca swap : bool) (a b : Z) : hres :=
+  match dispatch_choice c iw lw llw w s with
+  | CNarrow => if fx then narrow_checked builtin op iw lw llw w s cb ca swap a b
+               else narrow_unchecked op iw w s a b
+  | CBase bw bs => of_pair (base_helper builtin op bw bs lw llw cb ca swap a b)
+  | CFatal => Fatal
+  end.
+
+(* LeftShift instantiated at a typedef'd type.  For a type narrower than int the macros are
+   evaluated after the integer promotions: __PYX_MIN(T) is the int 0 for an unsigned T, so
+   __PYX_MAX(T) = ~0 = -1 and "a > (-1 >> b)" holds for every a: the bit is always set.  For a
+   signed narrow T the int-valued macros have the values of the type (pyx_max w true). *)
+Definition lshift_td (iw w : Z) (s : bool) (a b : Z) : Z * bool :=
+  if (w <? iw) && negb s then (0, true) else lshift_helper w s a b.
+
+Definition oc_of_hres (h : hres) : oc :=
+  match h with R v f => if f then Ovf else Val v | Fatal => Undef end.
+
+(* NumBinopNode whose result type is a typedef'd type of real width w / signedness s *)
+Definition typedef_node (fx : bool) (c : narrow_cmp) (builtin : bool) (op : cop)
+    (iw lw llw w : Z) (s : bool) (cb ca swap : bool) (a b : Z) : oc :=
+  match op with
+  | OAdd => oc_of_hres (binop_dispatch_v fx c builtin Add iw lw llw w s cb ca swap a b)
+  | OSub => oc_of_hres (binop_dispatch_v fx c builtin Sub iw lw llw w s cb ca swap a b)
+  | OMul => oc_of_hres (binop_dispatch_v fx c builtin Mul iw lw llw w s cb ca swap a b)
+  | OLshift => raise_if (lshift_td iw w s a b)
+  end.
+
+(* ---- the raise in a nogil context -----------------------------------------------------------
+   NumBinopNode.generate_evaluation_code emits PyErr_SetString for a set bit.  Inside a nogil
+   section / nogil function the thread holds no GIL and has no current thread state: without
+   put_ensure_gil() the call dereferences a NULL thread state (gil_fixed = false: the code as it
+   is; true: the raise is bracketed by put_ensure_gil / put_release_ensured_gil like DivNode). *)
+Definition nogil_node (gil_fixed in_nogil : bool) (o : oc) : oc :=
+  match o with
+  | Ovf => if in_nogil && negb gil_fixed then Undef else Ovf
+  | _ => o
+  end.
